@@ -77,6 +77,11 @@ type StepInfo struct {
 	Gone map[string]bool
 	// Buckets: ledger -> bucket, of every ledger created so far.
 	Buckets map[string]string
+	// Ledgers: the configuration the sequence runs in (names, buckets, features of the
+	// ledgers that exist from the start).
+	Ledgers []LedgerSpec
+	// Fresh: this evaluation of the oracle runs on a freshly attached process (Restart).
+	Fresh bool
 }
 
 type SeqExplorer struct {
@@ -292,7 +297,7 @@ func (e *SeqExplorer) runPath(ctx context.Context, boot *pgsim.DB, path []Op) (*
 			buckets[l.Name] = ledger.DefaultBucket
 		}
 	}
-	info := &StepInfo{Path: path, W: w, Refs: refs, Ctrls: ctrls, Gone: gone, Buckets: buckets}
+	info := &StepInfo{Path: path, W: w, Refs: refs, Ctrls: ctrls, Gone: gone, Buckets: buckets, Ledgers: e.Ledgers}
 	// systemLast records a system-level last operation (ledger creation, bucket soft delete /
 	// restore): the "current ledger" of the step is then the first routable one
 	systemLast := func(op Op, out Outcome) {
@@ -464,7 +469,7 @@ func (e *SeqExplorer) runPath(ctx context.Context, boot *pgsim.DB, path []Op) (*
 		}
 		rep2 := &Report{}
 		i2 := *info
-		i2.W, i2.Ctrl = w2, c2
+		i2.W, i2.Ctrl, i2.Fresh = w2, c2, true
 		i2.Ctrls = map[string]ledgercontroller.Controller{}
 		for ln := range ctrls {
 			cc, err := w2.Sys.GetLedgerController(ctx, ln)
